@@ -30,7 +30,7 @@ void h_verify_commit(void) {
         __CPROVER_assert(fval(&g_ec_p0.x) == ox && fval(&g_ec_p0.y) == oy && g_ec_p0.infinity == 0, "C15 verify_commit: the committed point is exactly the loaded opening");
         __CPROVER_assert(g_ec_s0 == 0xa9b21c7bul && g_ec_s7 == 0x8a5bf91cul && g_ec_bytes == 64, "C15 verify_commit: hash object is the s2c/ecdsa/point midstate with 64 bytes absorbed");
         __CPROVER_assert(g_ec_data == data32 && g_ec_size == 32 && g_ec_hctx == &ctx.hash_ctx, "C15 verify_commit: commits to data32[0..32) with the context's hash context");
-        if (g_ec_v0 == 0) __CPROVER_assert(ret == 0, "C15 verify_commit: commitment failure => 0");
+        if (g_ec_v0 == 0) { __CPROVER_assert(ret == 0, "C15 verify_commit: commitment failure => 0"); REACH("verify_commit commitment failure"); }
         else {
             X = fmodp1(&g_ec_c0.x);   /* a successful ec_commit returns the output of ge_set_gej: magnitude 1 (asserted in C15.ec_commit) */
             __CPROVER_assert(ret == (rv == (X >= n ? X - n : X)), "C15 verify_commit: ret = (sig.r == x(commitment) mod n)");
